@@ -20,14 +20,14 @@
    one rejection per history: the first observable symptom. *)
 EXTENDS Signal, IOUtils
 
-VARIABLES l, bad, fl, skip
-tvars == <<st, hist, sx, ever, l, bad, fl, skip>>
+VARIABLES l, bad, fl, skip, ai, taint
+tvars == <<st, hist, sx, ever, l, bad, fl, skip, ai, taint>>
 
 T == ndJsonDeserialize(IOEnv.TRACE)
 
 NoFl == [list |-> TRUE, res |-> FALSE, unr |-> FALSE]
 
-OpOf(ev) == [op |-> ev.op, l |-> ev.l, l2 |-> ev.l2, x |-> ev.x, x2 |-> ev.x2]
+OpOf(ev) == [op |-> ev.op, l |-> ev.l, l2 |-> ev.l2, x |-> ev.x, x2 |-> ev.x2, b |-> ev.b, mode |-> ev.mode]
 
 (* the harness' own bookkeeping of which slots are alive must agree with the specification;
    a disagreement is a harness bug, not a verdict *)
@@ -35,13 +35,65 @@ SlotsAgree(m, ev) ==
   /\ Len(ev.lists) = NL /\ Len(ev.elive) = NE
   /\ \A L \in Lists : ev.lists[L].live = m.llive[L]
   /\ \A e \in Elems : (ev.elive[e] = 1) = m.elive[e]
+OwnersAgree(x, ev) ==
+  /\ Len(ev.hold) = NE /\ Len(ev.boxes) = NB
+  /\ \A h \in Elems : ev.hold[h] = x.hold[h]
+  /\ \A b \in Boxes : ev.boxes[b].live = x.blive[b] /\ ev.boxes[b].ids = x.box[b]
+
+(* SCOPE.  A rejection may only become a VIOLATION of C11 for behaviour the STATEMENT of C11
+   covers; everything else this specification judges is OBSERVED ONLY (reported in the evidence,
+   never a violation).  Per record kind (operation) and per reason:
+   in scope - "After any history of creating, destroying and moving elements and of moving,
+     move-assigning and destroying lists, an intrusive list contains exactly the live, not
+     moved-from elements that were linked into it (or into a list it took over), in link order,
+     and never refers to a destroyed element": the list and element constructors, moves and
+     destructors; what forward / backward iteration and empty() of a list show;
+   in scope - "calling a signal invokes exactly the callbacks whose connection object is still
+     alive, once each in connection order, combines their results as a left fold from the
+     initial value, and runs a connection's unregister callback exactly once when that
+     connection dies": signal construction / moves / destruction (a signal is such a list),
+     connect, death of a connection; which callbacks ran, the combiner chain, the unregister log.
+   observed only (not named by the statement): unlink(), iterator operations, const iteration,
+     moving / assigning / collecting the OWNERS of connections (auto_connection,
+     auto_connection_container, optional_auto_connection: their semantics are those of
+     fcppt::unique_ptr / std::vector, not of the signal), signal::empty(), the arguments a
+     callback receives, a call that throws, and everything reentrant.
+   A history that has executed an observed-only operation is TAINTED: whatever it shows later
+   is observed only as well (the state the statement talks about may have been changed by
+   something the statement does not talk about). *)
+InScopeOp(op) ==
+  op \in {"list_ctor", "list_move_ctor", "list_move_assign", "list_dtor",
+          "elem_ctor", "elem_move_ctor", "elem_move_assign", "elem_dtor",
+          "sig_ctor", "sig_move_ctor", "sig_move_assign", "sig_dtor", "connect", "disconnect"}
+InScopeReason(w, isl) ==
+  \/ isl /\ w \in {"forward-extra", "forward-missing", "forward-twice", "forward-order",
+                    "backward-extra", "backward-missing", "backward-twice", "backward-order",
+                    "forward-walk-leaves-the-list", "backward-walk-leaves-the-list", "empty"}
+  \/ ~isl /\ w \in {"called-extra", "called-missing", "called-twice", "called-order",
+                     "call-does-not-end", "left-fold",
+                     "unregister-not-run", "unregister-run-twice", "unregister-of-other-connection"}
+
+(* ai = [it |-> the abstract iterator the driver holds, fresh |-> no other operation since it was
+   obtained by begin()/end() (only then is it judged: the documentation does not say that an
+   iterator survives operations on the list)] *)
+NoAi == [it |-> NoIter, fresh |-> FALSE]
+SetOf(q) == {q[i] : i \in DOMAIN q}
+IterReasons(m, it, a, ob) ==
+  (IF /\ ob.held
+      /\ ob.elem = it.x
+      /\ SetOf(ob.end_of) = (IF it.x = 0 THEN {it.end} ELSE {})
+      /\ SetOf(ob.begin_of) = {L \in Lists : m.llive[L] /\ IterBegin(m, L) = it}
+   THEN {} ELSE {"iterator-position"})
+  \cup (IF a.op \in {"iter_inc", "iter_dec"} /\ a.mode = 1 /\ ~ob.ret_old THEN {"iterator-postfix-result"} ELSE {})
 
 ListReasons(m, ev) ==
   UNION {
     LET r == ev.lists[L] IN
       SeqReasons("forward", r.fwd, Forward(m, L))
+      \cup SeqReasons("forward-const", r.cfwd, Forward(m, L))
       \cup SeqReasons("backward", r.bwd, Backward(m, L))
       \cup (IF r.fok THEN {} ELSE {"forward-walk-leaves-the-list"})
+      \cup (IF r.cok THEN {} ELSE {"forward-const-walk-leaves-the-list"})
       \cup (IF r.bok THEN {} ELSE {"backward-walk-leaves-the-list"})
       \cup (IF r.empty = IsEmpty(m, L) THEN {} ELSE {"empty"})
     : L \in {K \in Lists : m.llive[K]}}
@@ -52,7 +104,7 @@ SignalReasons(m, x, a, ev) ==
       (IF r.empty = IsEmpty(m, L) THEN {} ELSE {"empty"})
       \cup (IF r.call.done THEN CallReasons(m, L, r.call, fl.res) ELSE {})
     : L \in {K \in Lists : m.llive[K]}}
-  \cup UnregReasons(a, fl.unr, ev.unreg)
+  \cup UnregReasons(x, a, fl.unr, ev.unreg)
 
 (* the driver calls exactly the callable signals *)
 CallsAgree(m, x, ev) ==
@@ -67,6 +119,8 @@ TInit ==
   /\ bad = <<>>
   /\ fl = NoFl
   /\ skip = FALSE
+  /\ ai = NoAi
+  /\ taint = FALSE
 
 AllDead(m) == (\A L \in Lists : ~m.llive[L]) /\ (\A e \in Elems : ~m.elive[e])
 
@@ -75,46 +129,75 @@ TReset ==
   /\ st' = EmptyM
   /\ sx' = EmptyX
   /\ fl' = [list |-> T[l].list, res |-> T[l].res, unr |-> T[l].unr]
-  /\ skip' = FALSE
+  /\ ai' = NoAi
+  /\ taint' = FALSE
+  \* an "observed only" history (behaviour the documentation is silent about, e.g. callbacks that
+  \* connect / disconnect during the call) is driven under the sanitizers but not judged
+  /\ skip' = T[l].observed
   /\ bad' = IF skip \/ AllDead(st) THEN bad
-            ELSE Append(bad, [l |-> l, op |-> "reset", why |-> {"HARNESS-STATE-NOT-EMPTY-AT-RESET"}])
+            ELSE Append(bad, [l |-> l, op |-> "reset", why |-> {"HARNESS-STATE-NOT-EMPTY-AT-RESET"}, scope |-> "in"])
 
 TEnd ==
   /\ T[l].e = "end"
   /\ bad' = IF skip \/ AllDead(st) THEN bad
-            ELSE Append(bad, [l |-> l, op |-> "end", why |-> {"HARNESS-STATE-NOT-EMPTY-AT-RESET"}])
-  /\ UNCHANGED <<st, sx, fl, skip>>
+            ELSE Append(bad, [l |-> l, op |-> "end", why |-> {"HARNESS-STATE-NOT-EMPTY-AT-RESET"}, scope |-> "in"])
+  /\ UNCHANGED <<st, sx, fl, skip, ai, taint>>
 
 (* written by the check after a history that a sanitizer / crash / hang cut short (that
    operation has been rejected already): the remains of the history are not judged *)
 TAborted ==
   /\ T[l].e = "aborted"
   /\ skip' = TRUE
-  /\ UNCHANGED <<st, sx, fl, bad>>
+  /\ UNCHANGED <<st, sx, fl, bad, ai, taint>>
 
 TOp ==
   /\ T[l].e = "op"
   /\ LET ev == T[l]
          a == OpOf(ev)
          isl == fl.list
-         preok == IF isl THEN a.op \in ListOps \cup ElemOps /\ Pre(st, a) ELSE SPre(st, a)
+         \* "iter_refused": the driver did not dare to take a scripted iterator step (mode 1 = ++, 2 = --)
+         refused == isl /\ a.op = "iter_refused"
+         wanted == [a EXCEPT !.op = IF a.mode = 1 THEN "iter_inc" ELSE "iter_dec"]
+         isit == isl /\ a.op \in IterOps
+         preok == IF refused THEN TRUE ELSE IF isit THEN (IF ai.fresh \/ a.op \in {"iter_begin", "iter_end"} THEN IterPre(st, ai.it, a) ELSE ai.it.held)
+                  ELSE IF isl THEN a.op \in ListOps \cup ElemOps /\ Pre(st, a)
+                  ELSE SPre(st, sx, a)
      IN
-     IF skip THEN UNCHANGED <<st, sx, bad, fl, skip>>
+     IF skip THEN UNCHANGED <<st, sx, bad, fl, skip, ai, taint>>
      ELSE IF ~preok
-     THEN /\ bad' = Append(bad, [l |-> l, op |-> ev.op, why |-> {"HARNESS-PRECONDITION"}])
+     THEN /\ bad' = Append(bad, [l |-> l, op |-> ev.op, why |-> {"HARNESS-PRECONDITION"}, scope |-> "in"])
           /\ skip' = TRUE
-          /\ UNCHANGED <<st, sx, fl>>
-     ELSE LET m == IF isl THEN Eff(st, a) ELSE SEff(st, a)
+          /\ UNCHANGED <<st, sx, fl, ai, taint>>
+     ELSE LET m == IF isit \/ refused THEN st ELSE IF isl THEN Eff(st, a) ELSE SEff(st, sx, a)
               x == IF isl THEN sx ELSE XEff(sx, a, fl.unr)
+              judged == isit /\ a.op # "iter_drop" /\ (ai.fresh \/ a.op \in {"iter_begin", "iter_end"})
+              ai2 == IF ~isl THEN NoAi
+                     ELSE IF refused THEN [it |-> IF ai.it.held THEN Dangling ELSE NoIter, fresh |-> FALSE]
+                     ELSE IF ~isit THEN [it |-> IterAfter(ai.it, a), fresh |-> FALSE]
+                     ELSE IF a.op = "iter_drop" THEN NoAi
+                     ELSE IF judged THEN [it |-> IterEff(st, ai.it, a), fresh |-> TRUE]
+                     ELSE [it |-> Dangling, fresh |-> FALSE]     \* position not tracked any more
               why == IF ~SlotsAgree(m, ev) THEN {"HARNESS-SLOTS"}
-                     ELSE IF isl THEN ListReasons(m, ev)
+                     ELSE IF isl THEN ListReasons(m, ev) \cup (IF judged THEN IterReasons(m, ai2.it, a, ev.iter) ELSE {})
+                                      \cup (IF refused /\ ai.fresh /\ IterPre(st, ai.it, wanted)
+                                            THEN {"iterator-step-refused"} ELSE {})
+                     ELSE IF ~OwnersAgree(x, ev) THEN {"HARNESS-OWNERS"}
                      ELSE IF ~CallsAgree(m, x, ev) THEN {"HARNESS-CALLS"}
-                     ELSE SignalReasons(m, x, a, ev)
+                     ELSE SignalReasons(m, sx, a, ev)
+              t2 == taint \/ ~InScopeOp(a.op)
+              harness == \E w \in why : w \in {"HARNESS-SLOTS", "HARNESS-OWNERS", "HARNESS-CALLS"}
+              inwhy == {w \in why : InScopeReason(w, isl)}
+              scope == IF harness \/ (~t2 /\ inwhy # {}) THEN "in" ELSE "observed"
           IN /\ st' = m
              /\ sx' = x
              /\ fl' = fl
-             /\ bad' = IF why = {} THEN bad ELSE Append(bad, [l |-> l, op |-> ev.op, why |-> why])
-             /\ skip' = (why # {})
+             /\ ai' = ai2
+             /\ taint' = t2
+             /\ bad' = IF why = {} THEN bad
+                       ELSE Append(bad, [l |-> l, op |-> ev.op, why |-> why, scope |-> scope])
+             \* an in-scope rejection (or any rejection in a tainted history) ends the judging of
+             \* this history; an observed-only disagreement of an untainted history does not
+             /\ skip' = (why # {} /\ (scope = "in" \/ t2))
 
 TNext ==
   /\ l <= Len(T)
